@@ -101,6 +101,3 @@ func init() {
 		}
 	}
 }
-
-func c12Enum(t Tier, ev *Evidence) []Violation { return nil }
-func c11Enum(t Tier, ev *Evidence) []Violation { return nil }
